@@ -15,6 +15,7 @@ def run(ctx):
     ]
     plan.append({"scens": wcat.special_dep_scenarios(failing=True), "policies": ("FIFO", "LIFO"), "bound": 1})
     plan.append({"scens": wcat.carry_scenarios(), "policies": ("FIFO", "LIFO", "JOBS"), "bound": 1})
+    plan.append({"scens": wcat.token_and_dependency_scenarios(), "policies": ("FIFO", "LIFO", "JOBS"), "bound": 1, "demote": True})
     plan.append({"scens": wcat.rerun_scenarios(), "policies": ("FIFO", "LIFO", "JOBS"), "bound": 1})
     plan.append({"scens": wcat.first_handle_scenarios(), "policies": ("FIFO", "JOBS"), "bound": 1})
     plan.append({"scens": wcat.wait_scenarios(), "policies": ("FIFO", "LIFO", "JOBS"), "bound": 1})
